@@ -22,8 +22,10 @@ for name in sorted(os.listdir(os.path.join(HERE, "seeded"))):
     elif rc == 1:
         caught += 1
         verdict = "`" + "`, `".join(s.replace("|", "\\|") for s in sigs[:2]) + "`" + (" ..." if len(sigs) > 2 else "") + f" ({secs} s)"
+    elif rc == 0 and meta.get("caught_by_other"):
+        verdict = "missed by the check of its own property; caught by " + str(meta["caught_by_other"])[:160]
     elif rc == 0:
-        verdict = "**missed**"
+        verdict = "**missed**" + (" - " + str(meta["not_caught_because"])[:200] if meta.get("not_caught_because") else "")
     elif rc is None:
         verdict = "(not run)"
     else:
